@@ -99,6 +99,7 @@ type Queue struct {
 	Pick   func(items [][]byte) int
 	Seen   [][]byte // every frame ever written (C17)
 	Gate   bool     // when true nothing is delivered until Release()
+	Tap    func(op string, frame []byte) // called under the queue's lock for every put / get (trace validation)
 	Drain  bool     // when true frames written before Close are still delivered (a message transport hands over what it has before reporting the error)
 }
 
@@ -117,6 +118,9 @@ func (q *Queue) Put(b []byte) error {
 	c := append([]byte(nil), b...)
 	q.items = append(q.items, c)
 	q.Seen = append(q.Seen, c)
+	if q.Tap != nil {
+		q.Tap("put", c)
+	}
 	q.cond.Broadcast()
 	return nil
 }
@@ -136,6 +140,9 @@ func (q *Queue) Get() ([]byte, error) {
 			if i >= 0 && i < len(q.items) {
 				b := q.items[i]
 				q.items = append(q.items[:i:i], q.items[i+1:]...)
+				if q.Tap != nil {
+					q.Tap("get", b)
+				}
 				return b, nil
 			}
 		}
